@@ -412,6 +412,7 @@ pub fn c15_gen_cfg(rng: &mut Rng) -> GenCfg {
         max_depth: rng.range(1, 3),
         examples_bias: 2,
         shadow_bias: 5,
+        res_range: (1, 3),
     }
 }
 
